@@ -15,7 +15,9 @@ RULE = (
     "Boundary probes: the last 3 acquisitions below the limit, 5 attempts above it through the route's calls, one attempt "
     "through every other acquiring call, hysteresis rounds (drop k, exactly k succeed, 2 more attempts refuse), a "
     "collect_cycles() one below the limit, then death (all handles dropped but the cycle edge, collect until quiet): "
-    "finalize count, drop count, allocated_bytes() back at the baseline, kept Weak handles dead. "
+    "finalize count, drop count, allocated_bytes() back at the baseline, kept Weak handles dead. Two extra families: 'deadweak' "
+    "(the weak limit reached on an allocation whose value is already gone) and 'garbagepool-fin' (16382 handles all owned by a container that "
+    "forms a garbage cycle with the object; the finalizer run by the collection that reclaims them attempts clone number 16383). "
     "evaluations = boundary probes + post-mortem oracle evaluations. A scenario is NON-TRIVIAL when it reached every limit "
     "of its route and observed at least one panic of an over-limit call; DISTINCT = distinct (route, variant flags)."
 )
